@@ -244,7 +244,8 @@ def match_known(prop, rec, known):
 # ---------------------------------------------------------------------------- reporting
 def finish(prop, tier, seed, t0, records, errors, coverage_extra, assumptions, level='proof', bounded=None):
     """prints the verdict lines, writes evidence, returns the exit code"""
-    os.makedirs(os.path.join(VERIF, 'evidence'), exist_ok=True)
+    evdir = os.environ.get('VERIF_EVIDENCE_DIR') or os.path.join(VERIF, 'evidence')
+    os.makedirs(evdir, exist_ok=True)
     os.makedirs(os.path.join(VERIF, 'replays'), exist_ok=True)
     known = load_known()
     failed = [r for r in records if r['verdict'] == 'failed']
@@ -294,7 +295,7 @@ def finish(prop, tier, seed, t0, records, errors, coverage_extra, assumptions, l
     cov.update(coverage_extra or {})
     ev = dict(property_id=prop, tier=tier, seed=seed, level=level, coverage=cov, assumptions=sorted(set(assumptions)),
               wall_s=round(time.time() - t0, 2), violations=violations)
-    with open(os.path.join(VERIF, 'evidence', f'{prop}.json'), 'w') as fh:
+    with open(os.path.join(evdir, f'{prop}.json'), 'w') as fh:
         json.dump(ev, fh, indent=1, default=str)
     if errors:
         for e in errors:
